@@ -2188,6 +2188,12 @@ pub(crate) fn cleanup_stale_versioned_index(
 	const BATCH_SIZE: usize = 100;
 
 	for batch in keys_to_delete.chunks(BATCH_SIZE) {
+		// (a blocking point only: the caller holds the manifest lock, so the thread is never
+		// parked here while the lock is free)
+		#[cfg(surrealkv_verif)]
+		if versioned_index.try_write().is_none() {
+			crate::verif::acquire_point("index:write-lock", &|| versioned_index.try_write().is_none());
+		}
 		let mut guard = versioned_index.write();
 		for key in batch {
 			// No re-verification needed:
